@@ -593,6 +593,8 @@ class CallMixin:
                 raise Unsupported("timedelta unit")
             total = z3.Sum([z3.RealVal(str(v_)) * z3.RealVal(str(unit[k_])) for k_, v_ in kwargs.items()] + [z3.RealVal(0)])
             return [("val", Sym("td", simp(total)), st)]
+        if short == "re.escape" and args:
+            return [("val", fresh("str", "regex_escaped"), st)]   # S: some string (the literal, escaped)
         if short == "re.compile":
             return [("val", st.alloc("opaque:re.Pattern", {"pattern": args[0]}), st)]
         if short == "logging.getLogger":
